@@ -64,7 +64,7 @@ impl<'a> Autocompletion<'a> {
 //@     self.autocompleted matches Some(n) ==> n <= self.buffer@.len() && valid_utf8(self.buffer@.subrange(0, n as int))
 //@ }
     pub fn new(buffer: &'a mut [u8]) -> Self {
-//@ ensures r.wf(), r.room() == old(buffer)@.len(), r.state() == (AcState { auto: None, partial: false }),   // [C11,~C02,C03]
+//@ ensures r.wf(), r.room() == old(buffer)@.len(), r.state() == (AcState { auto: None, partial: false }),   // [C11,~C02,~C03]
 //@     r.buf() == old(buffer)@, r.fin() == final(buffer)@, r.cands@ == Seq::<Seq<u8>>::empty(),   // [C11]
 //@     ac_inv(r.state(), r.cands@, r.room()),   // [C11]
         Self {
@@ -101,7 +101,7 @@ impl<'a> Autocompletion<'a> {
     /// Merge this autocompletion with another one
     pub fn merge_autocompletion(&mut self, autocompletion: &str) {
 //@ requires old(self).wf(),
-//@ ensures final(self).wf(), final(self).room() == old(self).room(), final(self).fin() == old(self).fin(),   // [C11,~C02,C03]
+//@ ensures final(self).wf(), final(self).room() == old(self).room(), final(self).fin() == old(self).fin(),   // [C11,~C02,~C03]
 //@     // C11: the merged continuation is the common prefix (on a character boundary) of what was there and the
 //@     // new candidate; it is marked partial as soon as it is shorter than a candidate or a second one arrives
 //@     final(self).state() == merge_step(old(self).room(), old(self).state(), autocompletion.spec_bytes()),   // [C11]
